@@ -1,6 +1,7 @@
 """C15 - each free-text data element's format constraints see only that element's own input."""
 
 import random
+import zlib
 
 from vf import evaluators as E
 from vf import sched
@@ -124,7 +125,9 @@ async def check_tree(ctx, case):
         ctx.count("trees_with_reused_result_objects")
     chooser = sched.RandomChooser(random.Random(case["schedule_seed"]))
     sc = sched.Sched(chooser)
-    out = await TB.validate(spec, world, soll, scheduler=sc, stale_text=case.get("stale", False))
+    built = []
+    out = await TB.validate(spec, world, soll, scheduler=sc, stale_text=case.get("stale", False), built=built)
+    validated_objects = TB.free_text_objects(built[0])
     ctx.evaluation()
     if case.get("stale"):
         ctx.count("runs_with_stale_text_in_context")
@@ -197,7 +200,13 @@ async def check_tree(ctx, case):
             if d["d"] not in got:
                 ctx.violation("element-not-reported", f"free-text element {d['d']} of the visited segment {seg['d']} is missing from the report")
                 return
-            obj = TB.build_data_element(d)
+            # every other element: the very object that went through the tree run (a validation is no reason for a free text to change)
+            reuse = zlib.crc32(d["d"].encode()) % 2 == 0 and d["d"] in validated_objects
+            obj = validated_objects[d["d"]] if reuse else TB.build_data_element(d)
+            if reuse:
+                ctx.count("elements_revalidated_as_the_same_object")
+                if obj.entered_input != d["input"]:
+                    ctx.count("inputs_changed_by_the_tree_run")  # shows in the comparison below (the statement speaks about results)
             alone_world = E.World("c15", rc=asg, fc_mode=world.fc_mode)
 
             async def go(obj=obj, alone_world=alone_world):
@@ -212,7 +221,7 @@ async def check_tree(ctx, case):
                 return
             a, b = got[d["d"]].validation_result, alone[1].validation_result
             if repr(a) != repr(b):
-                ctx.violation("differs-from-standalone", f"data element {d['d']} ({T.expr_string(d['x'])!r}, input {d['input']!r}): in the tree run {a!r}, validated on its own {b!r}"[:1200])
+                ctx.violation("differs-from-standalone", f"data element {d['d']} ({T.expr_string(d['x'])!r}, input {d['input']!r}): in the tree run {a!r}, validated on its own{' (the same object, its input is now ' + repr(obj.entered_input) + ')' if reuse else ''} {b!r}"[:1200])
                 return
 
 
